@@ -15,7 +15,7 @@ macro_rules! c17_layout {
                 let a = AnyLayout::$ty($ty);
                 let got = a.map_keycode(k, &m, h);
                 let want = $ty.map_keycode(k, &m, h);
-                println!("C17 AnyLayout::{} key={:?} mods={:?} mode={:?} got={:?} want={:?}", stringify!($ty), k, m, h, got, want);
+                crate::show!("C17 AnyLayout::{} key={:?} mods={:?} mode={:?} got={:?} want={:?}", stringify!($ty), k, m, h, got, want);
                 assert!(got == want, "C17: AnyLayout (by value) differs from the wrapped layout");
                 kani::cover!(matches!(got, DecodedKey::Unicode(_)));
             }
@@ -28,7 +28,7 @@ macro_rules! c17_layout {
                 let r = &a;
                 let got = r.map_keycode(k, &m, h);
                 let want = $ty.map_keycode(k, &m, h);
-                println!("C17 &AnyLayout::{} key={:?} mods={:?} mode={:?} got={:?} want={:?}", stringify!($ty), k, m, h, got, want);
+                crate::show!("C17 &AnyLayout::{} key={:?} mods={:?} mode={:?} got={:?} want={:?}", stringify!($ty), k, m, h, got, want);
                 assert!(got == want, "C17: &AnyLayout differs from the wrapped layout");
                 kani::cover!(matches!(got, DecodedKey::Unicode(_)));
             }
@@ -44,7 +44,7 @@ macro_rules! c17_layout {
                 let mut d2 = evdec($ty, &m, h);
                 let o1 = d1.process_keyevent(KeyEvent::new(k, KeyState::Down));
                 let o2 = d2.process_keyevent(KeyEvent::new(k, KeyState::Down));
-                println!("C17 evdec {} key={:?} mods={:?} mode={:?} any={:?} direct={:?}", stringify!($ty), k, m, h, o1, o2);
+                crate::show!("C17 evdec {} key={:?} mods={:?} mode={:?} any={:?} direct={:?}", stringify!($ty), k, m, h, o1, o2);
                 assert!(o1 == o2, "C17: EventDecoder<&AnyLayout> differs from EventDecoder<layout>");
                 kani::cover!(true);
             }
